@@ -74,7 +74,7 @@ CHECKS["C11"] = dict(
 CHECKS["C15"] = dict(
     cat="model_checking", design="6/C15",
     technique="ScrubPlan.tla: declarative selection vs transcription of scrub.c checked by TLC for all small info arrays and arguments; liveness of repeated default scrubs under fairness; real scrubs with a controlled clock validated against ScrubPlanTrace.tla (selection from parity reads, limits, books)",
-    text="TLC checks the transcription of the plan selection against the declarative statement and eventual coverage under fairness; every real scrub step (controlled time distributions, ties, corruption, unsynced files, scrub -> fix -e -> scrub -p bad) must select exactly what the specification allows and keep the books as Array!ScrubResult says.",
+    text="TLC checks the transcription of the plan selection against the declarative statement and eventual coverage under fairness; every real scrub step (controlled time distributions, ties, corruption, unsynced files, scrub -> fix -e -> scrub -p bad) must select exactly what the specification allows and keep the books as Array!ScrubResult says; the rehash command must leave the books (time, bad mark, never-scrubbed flag) as they were.",
     note="Liveness holds under 'errors get repaired' (a never-repaired bad stripe can starve a quota of one stripe); share = ceil(pct*blockmax/100).")
 CHECKS["C17"] = dict(
     cat="model_checking", design="6/C17",
@@ -100,7 +100,7 @@ for pid, cat, tech, text in [
     ("C04", "model_checking", "detection sets of check/scrub compared (both directions) with the ground-truth damage computed in TLA+ on the projected real state; TLC model of check/scrub validated by traces",
      "For every real check/scrub on a synced array the reported data/parity errors, marks and exit class are compared by TLC with the damage computed from the projected state; the model of check/scrub in Array.tla is validated on the same traces."),
     ("C12", "model_checking", "frame conditions of every command checked by TLC on byte-level digests recorded before/after each real command, plus the shim's system-call trace against the command's write set",
-     "Each command action of the specification carries its frame; TLC checks it on every step of every recorded trace using digests of data trees (bytes, names, ns mtimes), parity streams, content copies and the list of other artefacts."),
+     "Each command action of the specification carries its frame; TLC checks it on every step of every recorded trace using digests of data trees (bytes, names, ns mtimes), parity streams, content copies and the list of other artefacts. Two frame conditions outside the projected state are checked directly on real arrays: nothing is written through a symbolic link that stands where a recorded file was (target outside or inside the array), and the last name of a hard-linked file survives a fix that selects only the link."),
 ]:
     CHECKS[pid] = dict(cat=cat, design="6/" + pid, technique=tech, text=text, note=ARRAY_NOTE)
 
